@@ -11,10 +11,12 @@ use vlib::cards::*;
 use vlib::par::par_map;
 use vlib::report::{catch, last_panic_loc, Report, Violation};
 
-const ALPHA35: [&str; 35] = [
+const ALPHA35: [&str; 37] = [
     "A", "K", "Q", "J", "T", "9", "8", "7", "6", "5", "4", "3", "2", "s", "h", "d", "c", "o", "+", "-", ":", ".", ",", " ", "0", "1", "x", "a", "k", "S", "/", "\u{e9}", "\u{2660}", "\u{1F600}", "\u{0}",
+    // characters whose Unicode case folding is a notation letter: KELVIN SIGN (K), LONG S (s)
+    "\u{212A}", "\u{17F}",
 ];
-const ALPHA15: [&str; 15] = ["A", "K", "2", "s", "o", "h", "+", "-", ":", ".", "0", "1", ",", " ", "\u{e9}"];
+const ALPHA15: [&str; 17] = ["A", "K", "2", "s", "o", "h", "+", "-", ":", ".", "0", "1", ",", " ", "\u{e9}", "\u{212A}", "\u{17F}"];
 
 /// the i-th string of length `len` over `alpha`
 fn nth_string(alpha: &[&str], len: usize, mut i: u64) -> String {
@@ -293,7 +295,7 @@ pub fn run(tier: &str, mode: Mode) -> i32 {
                 }
             }
         }
-        rep.sub("short-strings-small-parsers", &format!("ALL strings of 0..={} symbols over a 35-symbol alphabet (13 ranks, s h d c o, + - : . , space, 0 1, junk letters, NUL, and the multi-byte characters U+00E9 (2 bytes), U+2660 (3), U+1F600 (4)) parsed as Rank, Suit, Card and CardPair; distinct_nontrivial = successful parses", max_len), total_strings, st_all.parsed_small, true, json!({"max_symbols": max_len}));
+        rep.sub("short-strings-small-parsers", &format!("ALL strings of 0..={} symbols over a 37-symbol alphabet (13 ranks, s h d c o, + - : . , space, 0 1, junk letters, NUL, the multi-byte characters U+00E9 (2 bytes), U+2660 (3), U+1F600 (4), and U+212A KELVIN SIGN / U+017F LONG S, whose case folding is a notation letter) parsed as Rank, Suit, Card and CardPair; distinct_nontrivial = successful parses", max_len), total_strings, st_all.parsed_small, true, json!({"max_symbols": max_len}));
         rep.sample(json!({"input": "\u{e9}", "parsers": "Rank, Suit, Card, CardPair"}));
     }
 
@@ -332,7 +334,7 @@ pub fn run(tier: &str, mode: Mode) -> i32 {
             }
         }
         rep.machine(st_all.nonempty_ranges.max(1), st_all.stage2.max(1), st_all.strings);
-        rep.sub("short-strings-range-parsers", &format!("ALL strings of 0..={} symbols over the 15-symbol alphabet {{A,K,2,s,o,h,+,-,:,.,0,1,comma,space,U+00E9}} parsed as HandRangeToken and HandRange; every value obtained is formatted, expanded, decomposed into rank pairs and leftovers, and enumerated by the evaluator alone and beside a second range on the first and last positions; distinct_nontrivial = strings that parse to a token or a non-empty range", max_len), st_all.strings, st_all.parsed_tokens + st_all.nonempty_ranges, true, json!({"max_symbols": max_len, "tokens_parsed": st_all.parsed_tokens, "non_empty_ranges": st_all.nonempty_ranges, "second_stage_operations": st_all.stage2}));
+        rep.sub("short-strings-range-parsers", &format!("ALL strings of 0..={} symbols over the 17-symbol alphabet {{A,K,2,s,o,h,+,-,:,.,0,1,comma,space,U+00E9,U+212A,U+017F}} parsed as HandRangeToken and HandRange; every value obtained is formatted, expanded, decomposed into rank pairs and leftovers, and enumerated by the evaluator alone and beside a second range on the first and last positions; distinct_nontrivial = strings that parse to a token or a non-empty range", max_len), st_all.strings, st_all.parsed_tokens + st_all.nonempty_ranges, true, json!({"max_symbols": max_len, "tokens_parsed": st_all.parsed_tokens, "non_empty_ranges": st_all.nonempty_ranges, "second_stage_operations": st_all.stage2}));
     }
 
     // (c) every string of the seven token shapes with arbitrary ranks, bare and with a weight
@@ -407,8 +409,9 @@ pub fn run(tier: &str, mode: Mode) -> i32 {
         rep.bound("strings longer than the enumeration bound are covered only by the shape family and the over-long family; 'all strings over Unicode' is infinite and the claim is for these bounds");
     }
 
-    if mode == Mode::Valid {
+    {
         // the weight grammar, exhaustively to four decimals, on one token of each shape
+        // (C09: must not panic; C10: must stay in [0,1])
         let lits = weight_literals();
         let heads = ["TT-88", "AQs-A9s", "KJo-K9o", "99+", "A9s+", "44", "JTs", "72o", "AsKs", "KsAs"];
         let chunk = 64;
@@ -450,7 +453,9 @@ pub fn run(tier: &str, mode: Mode) -> i32 {
         rep.sub("weight-grammar", "every literal of [01](.[0-9]{1,4})? (22,222) plus 63 long literals (1.000.., 1.999.., 0.999.., 60-digit fractions) behind one token of each shape (quick: the 20,000 four-decimal literals behind two of the ten heads only); literals the grammar rejects do not parse and are outside the property; distinct_nontrivial = texts accepted as a token", n, acc, thorough, json!({"literals": lits.len(), "token_heads": heads}));
         rep.sample(json!({"input": "AA:1.5"}));
         rep.sample(json!({"input": "AsAs"}));
+    }
 
+    if mode == Mode::Valid {
         // showdowns from lists of parsed ranges (full enumeration, 3 flops)
         let texts = ["AsKs,AsQd:0.5", "AA,AKs:0.5", "KsAs,KK:0.25", "A2s+:0.5", "AsAh,AsAd", "QQ+,AsKs:0"];
         let flops = [[8u8, 26, 49], [0, 1, 2], [0, 4, 51]];
